@@ -30,10 +30,14 @@ claim("C03",
       "value + hoisted statements against the real generator (exhaustive depth-2 operator pairs + random); real parser trees compared with intended trees; "
       "V8 evaluates generated code vs a reference evaluation of the intended tree over an edge-value data pool (incl. numeric literals at the edges of every "
       "representation). parse_print: a token-level model of the expression parser (GE/Model/ExprParse.lean, compared with the real parser on every generated source) "
-      "reads back every printed expression as the tree that was printed, for every printable expression.",
+      "reads back every printed expression as the tree that was printed, for every printable expression. gen_preserves (GE/Thm/C03Sem.lean): for every expression "
+      "without a spread operand, every level and counter, after the hoisted `var` statements have run in order the emitted value tree (the one gen_derives shows "
+      "JavaScript reads) evaluates to the value of the WXML expression and nothing but the temporaries has been assigned - for every total, side-effect-free "
+      "interpretation of member reads, calls, operators, literals and the helpers X / Y / P (one law: `v != null` is truthy iff v is not nullish); the proof is the "
+      "discipline of the temporaries (assigned before read, never twice, counter threaded through nested and sibling uses, later statements leave earlier values alone).",
       "Trusted: Lean kernel; axioms ⊆ {propext, Classical.choice, Quot.sound}; GE/Spec/JsGrammar.lean; the extractors; harness hook proc_gen_expr; V8. "
-      "Not yet proved: evaluation semantics (gen_preserves: the value of the generated JavaScript) is covered by the V8 oracle only; lexing of concatenated "
-      "spellings is tested (corr:lex_rt), not proved. "
+      "Not proved: spread operands (Object.assign / concat encodings) and throwing operations are outside gen_preserves (V8 oracle; finding D26); the abstract "
+      "operations of gen_preserves are tied to JavaScript by the V8 oracle; lexing of concatenated spellings is tested (corr:lex_rt), not proved. "
       "Known finding D14 (array spread via concat).",
       "Lean 4 proof (mutual structural induction over the AST, table side conditions by decide) + differential correspondence + V8 oracle")
 
